@@ -186,6 +186,14 @@ def _vc_ffiseq(v):
     return False
 
 
+def _vc_fficatch(v):
+    for h in v["hist"]:
+        if h["call"] == "boom":
+            h["after"][h["th"] - 1] = {"k": "null", "site": ""}
+            return True
+    return False
+
+
 def _vc_serde(v):
     """flip the expected verdict of a decoder vector"""
     if "ok" in v:
@@ -196,7 +204,7 @@ def _vc_serde(v):
     return False
 
 
-VECTOR_CORRUPTORS = {"replay-serde": _vc_serde, "replay-ffiseq": _vc_ffiseq, "replay-contains": _vc_contains, "replay-lit": _vc_lit, "replay-panic": _vc_panic, "replay": _vc_lang, "replay-hist": _vc_hist, "replay-reg": _vc_reg, "replay-types": _vc_types}
+VECTOR_CORRUPTORS = {"replay-fficatch": _vc_fficatch, "replay-serde": _vc_serde, "replay-ffiseq": _vc_ffiseq, "replay-contains": _vc_contains, "replay-lit": _vc_lit, "replay-panic": _vc_panic, "replay": _vc_lang, "replay-hist": _vc_hist, "replay-reg": _vc_reg, "replay-types": _vc_types}
 
 SH = dict(quick=1, thorough=8)
 
@@ -540,6 +548,7 @@ CHECKS = {
         assumptions=["the C API is called from Rust through the rlib", "FNV-1a is computed with the fnv crate"],
         stages=[
             mc("last-error-model", "MC_C20.tla", "MC_C20.cfg", replay_cmd="replay-ffiseq", workers=4),
+            mc("catcher-and-panics", "MC_C20c.tla", "MC_C20c.cfg", replay_cmd="replay-fficatch", workers=2),
             trace("sessions", "Trace_Ffi", ["gen-ffi", "--steps", "60"], 3, 120, shards=dict(quick=1, thorough=6)),
         ],
     ),
